@@ -101,6 +101,23 @@ Section EquivDrain.
     unfold runf. destruct it as [v p]. evm. cbv [into_drop_body bind ret lift_m vunit i_vec i_pos]. sym.
   Qed.
 
+  (* `impl Clone for IntoIter` *)
+  Lemma flat_map_ints es : flat_map (fun x => match x with VInt e => [e] | _ => [] end) (map VInt es) = es.
+  Proof. induction es as [|e es IH]; simpl; [reflexivity|]. rewrite IH. reflexivity. Qed.
+
+  Lemma into_clone_equiv it s :
+    runf into_iter__IntoIter__clone_ast [into_struct it] s = lift_m (into_clone_body cfg ncap it) into_val s.
+  Proof.
+    unfold runf. destruct it as [v p].
+    cbv -[Z.add Z.sub Z.mul Z.div Z.modulo Z.eqb Z.ltb Z.leb Z.max Z.min Z.land W64 ISIZE_MAX
+          release esz ealign needs_drop is_pow2 layout_ok new_obj into_as_slice extend_from_slice make_into flat_map map].
+    destruct (new_obj cfg s) as [[w| | | | |] s1]; [|reflexivity..].
+    destruct (into_as_slice cfg {| i_vec := v; i_pos := p |} s1) as [[es| | | | |] s2]; [|reflexivity..].
+    rewrite flat_map_ints.
+    destruct (extend_from_slice cfg ncap w es s2) as [[u| | | | |] s3]; [|reflexivity..].
+    destruct (make_into cfg w s3) as [[t| | | | |] s4]; reflexivity.
+  Qed.
+
   (* DrainFilter's DropGuard: move the unvisited tail down over the hole and restore the length *)
   Definition guard_struct (pv : val) (f : dfilter_it) : val := VStruct "DropGuard" [("drain", filter_val pv f)].
 
